@@ -7,6 +7,9 @@
 package main
 
 import (
+	"os"
+	"runtime/debug"
+	"runtime/pprof"
 	"fmt"
 	"math"
 	"sort"
@@ -147,8 +150,24 @@ func call(m *host.Machine, f rt.Value, args []rt.Value, def *rt.RuntimeContextDe
 	return "ok", term.Etc(), ""
 }
 
+// Every call of a table function runs inside a CPU-limited context, so that a
+// loop in golua ends the call as "killed" instead of hanging the worker.
+//   - cpuCtx (10M units) is for calls whose defined work is tiny (a few dozen
+//     element accesses, a sort of at most a few hundred elements): "killed"
+//     there means the function did not terminate in any reasonable sense.
+//   - cpuSmallCtx (500 units) is for calls that denote an astronomically long
+//     loop (reftab says Infeasible): being killed is legitimate there and the
+//     small limit only keeps the case cheap.
 var cpuCtx = &rt.RuntimeContextDef{HardLimits: rt.RuntimeResources{Cpu: 10_000_000}}
+var cpuSmallCtx = &rt.RuntimeContextDef{HardLimits: rt.RuntimeResources{Cpu: 500}}
 var cpuMemCtx = &rt.RuntimeContextDef{HardLimits: rt.RuntimeResources{Cpu: 10_000_000, Memory: 64 << 20}}
+
+func ctxFor(r reftab.Res) *rt.RuntimeContextDef {
+	if r.Infeasible {
+		return cpuSmallCtx
+	}
+	return cpuCtx
+}
 
 func canon1(v rt.Value) string { return host.NewCanon().Value(v) }
 
@@ -279,21 +298,32 @@ func (c *collector) out() core.Outcome {
 // ---------------------------------------------------------------- string functions
 
 // callStr calls string.<fn>(args...) and compares with the expected result
-// tuple (wantErr: an error must be raised).
-func (c *collector) callStr(e *env, key, fn string, args []rt.Value, want []lv.V, wantErr bool) {
+// tuple (wantErr: an error must be raised).  The violation key is
+// key+" clause=<c>": c is "error" when a required error is missing, otherwise
+// what classify returns for the wrong observation (it recognises the signature
+// of one specific defect, so that one defect = one key pattern), default
+// "result".
+func (c *collector) callStr(e *env, key, fn string, args []rt.Value, want []lv.V, wantErr bool, classify func(st string, res []rt.Value) string) {
 	st, res, errs := call(e.m, e.str[fn], args, nil)
 	got := obsStr(st, res, errs)
 	c.sig.WriteString(got)
 	c.sig.WriteByte(';')
 	if wantErr {
 		if st != "err" {
-			c.bad(key, fmt.Sprintf("string.%s%s: an error must be raised, observed %s", fn, canonVals(args), got))
+			c.bad(key+" clause=error", fmt.Sprintf("string.%s%s: an error must be raised, observed %s", fn, canonVals(args), got))
 		}
 		return
 	}
 	exp := "ok " + canonLV(want)
 	if got != exp {
-		c.bad(key, fmt.Sprintf("string.%s%s: expected %s, observed %s", fn, canonVals(args), canonLV(want), got))
+		cl := ""
+		if classify != nil {
+			cl = classify(st, res)
+		}
+		if cl == "" {
+			cl = "result"
+		}
+		c.bad(key+" clause="+cl, fmt.Sprintf("string.%s%s: expected %s, observed %s", fn, canonVals(args), canonLV(want), got))
 	}
 }
 
@@ -334,17 +364,17 @@ func strFamilies(tier string) []*core.Family {
 			e := getEnv()
 			var c collector
 			if d[1] == nP {
-				c.callStr(e, fmt.Sprintf("byte s=%q", s), "byte", []rt.Value{sv(s)}, intsLV(refstr19.Byte(s, 1, 1)), false)
+				c.callStr(e, fmt.Sprintf("byte s=%q", s), "byte", []rt.Value{sv(s)}, intsLV(refstr19.Byte(s, 1, 1)), false, nil)
 				return c.out()
 			}
 			p := P[d[1]]
 			// "If j is absent, then it is assumed to be equal to -1"
-			c.callStr(e, fmt.Sprintf("sub s=%q i=%d", s, p), "sub", []rt.Value{sv(s), iv(p)}, []lv.V{lv.S(refstr19.Sub(s, p, -1))}, false)
+			c.callStr(e, fmt.Sprintf("sub s=%q i=%d", s, p), "sub", []rt.Value{sv(s), iv(p)}, []lv.V{lv.S(refstr19.Sub(s, p, -1))}, false, nil)
 			// "the default value for j is i"
-			c.callStr(e, fmt.Sprintf("byte s=%q i=%d", s, p), "byte", []rt.Value{sv(s), iv(p)}, intsLV(refstr19.Byte(s, p, p)), false)
+			c.callStr(e, fmt.Sprintf("byte s=%q i=%d", s, p), "byte", []rt.Value{sv(s), iv(p)}, intsLV(refstr19.Byte(s, p, p)), false, nil)
 			for _, q := range P {
-				c.callStr(e, fmt.Sprintf("sub s=%q i=%d j=%d", s, p, q), "sub", []rt.Value{sv(s), iv(p), iv(q)}, []lv.V{lv.S(refstr19.Sub(s, p, q))}, false)
-				c.callStr(e, fmt.Sprintf("byte s=%q i=%d j=%d", s, p, q), "byte", []rt.Value{sv(s), iv(p), iv(q)}, intsLV(refstr19.Byte(s, p, q)), false)
+				c.callStr(e, fmt.Sprintf("sub s=%q i=%d j=%d", s, p, q), "sub", []rt.Value{sv(s), iv(p), iv(q)}, []lv.V{lv.S(refstr19.Sub(s, p, q))}, false, nil)
+				c.callStr(e, fmt.Sprintf("byte s=%q i=%d j=%d", s, p, q), "byte", []rt.Value{sv(s), iv(p), iv(q)}, intsLV(refstr19.Byte(s, p, q)), false, nil)
 			}
 			return c.out()
 		}})
@@ -370,14 +400,32 @@ func strFamilies(tier string) []*core.Family {
 				}
 				return []lv.V{lv.I(a), lv.I(b)}
 			}
+			// classify recognises one specific wrong answer: the indices of a
+			// correct occurrence counted from init instead of from the start
+			// of the subject.
+			relInit := func(init int64) func(string, []rt.Value) string {
+				return func(st string, res []rt.Value) string {
+					a, b, ok := refstr19.Find(s, nd, init)
+					p := refstr19.Translate(int64(len(s)), init)
+					if st != "ok" || !ok || len(res) != 2 || p <= 1 {
+						return ""
+					}
+					x, okx := res[0].TryInt()
+					y, oky := res[1].TryInt()
+					if okx && oky && x == a-(p-1) && y == b-(p-1) {
+						return "indices-relative-to-init"
+					}
+					return ""
+				}
+			}
 			// the needle alphabet contains no magic character, so the needle as
 			// a pattern matches exactly itself (§6.4.1 "a single character class
 			// matches any single character in the class"; x "represents the
 			// character x itself").
-			c.callStr(e, fmt.Sprintf("find s=%q needle=%q", s, nd), "find", []rt.Value{sv(s), sv(nd)}, want(1), false)
+			c.callStr(e, fmt.Sprintf("find s=%q needle=%q", s, nd), "find", []rt.Value{sv(s), sv(nd)}, want(1), false, nil)
 			for _, p := range P {
-				c.callStr(e, fmt.Sprintf("find plain s=%q needle=%q init=%d", s, nd, p), "find", []rt.Value{sv(s), sv(nd), iv(p), rt.BoolValue(true)}, want(p), false)
-				c.callStr(e, fmt.Sprintf("find s=%q needle=%q init=%d", s, nd, p), "find", []rt.Value{sv(s), sv(nd), iv(p)}, want(p), false)
+				c.callStr(e, fmt.Sprintf("find plain s=%q needle=%q init=%d", s, nd, p), "find", []rt.Value{sv(s), sv(nd), iv(p), rt.BoolValue(true)}, want(p), false, relInit(p))
+				c.callStr(e, fmt.Sprintf("find s=%q needle=%q init=%d", s, nd, p), "find", []rt.Value{sv(s), sv(nd), iv(p)}, want(p), false, relInit(p))
 			}
 			return c.out()
 		}})
@@ -399,11 +447,18 @@ func strFamilies(tier string) []*core.Family {
 			s, n := S.str(d[0]), counts[d[1]]
 			e := getEnv()
 			var c collector
+			// "Returns the empty string if n is not positive."
+			cl := func(st string, _ []rt.Value) string {
+				if n < 0 && st == "err" {
+					return "negative-n-raises"
+				}
+				return ""
+			}
 			if d[2] == 0 {
-				c.callStr(e, fmt.Sprintf("rep s=%q n=%d", s, n), "rep", []rt.Value{sv(s), iv(n)}, []lv.V{lv.S(refstr19.Rep(s, n, ""))}, false)
+				c.callStr(e, fmt.Sprintf("rep s=%q n=%d", s, n), "rep", []rt.Value{sv(s), iv(n)}, []lv.V{lv.S(refstr19.Rep(s, n, ""))}, false, cl)
 			} else {
 				sep := seps[d[2]-1]
-				c.callStr(e, fmt.Sprintf("rep s=%q n=%d sep=%q", s, n, sep), "rep", []rt.Value{sv(s), iv(n), sv(sep)}, []lv.V{lv.S(refstr19.Rep(s, n, sep))}, false)
+				c.callStr(e, fmt.Sprintf("rep s=%q n=%d sep=%q", s, n, sep), "rep", []rt.Value{sv(s), iv(n), sv(sep)}, []lv.V{lv.S(refstr19.Rep(s, n, sep))}, false, cl)
 			}
 			return c.out()
 		}})
@@ -475,11 +530,11 @@ func strFamilies(tier string) []*core.Family {
 			if i >= CS.size() {
 				switch i - CS.size() {
 				case 0: // §3.4.3: a float with an exact integer value converts to that integer
-					c.callStr(e, "char 65.0", "char", []rt.Value{rt.FloatValue(65)}, []lv.V{lv.S("A")}, false)
+					c.callStr(e, "char 65.0", "char", []rt.Value{rt.FloatValue(65)}, []lv.V{lv.S("A")}, false, nil)
 				case 1:
-					c.callStr(e, "char 65.5", "char", []rt.Value{rt.FloatValue(65.5)}, nil, true)
+					c.callStr(e, "char 65.5", "char", []rt.Value{rt.FloatValue(65.5)}, nil, true, nil)
 				case 2:
-					c.callStr(e, "char 97,98.0,0", "char", []rt.Value{iv(97), rt.FloatValue(98), iv(0)}, []lv.V{lv.S("ab\x00")}, false)
+					c.callStr(e, "char 97,98.0,0", "char", []rt.Value{iv(97), rt.FloatValue(98), iv(0)}, []lv.V{lv.S("ab\x00")}, false, nil)
 				}
 				return c.out()
 			}
@@ -490,7 +545,7 @@ func strFamilies(tier string) []*core.Family {
 				args = append(args, iv(cv[x]))
 			}
 			want, ok := refstr19.Char(vals)
-			c.callStr(e, fmt.Sprintf("char %v", vals), "char", args, []lv.V{lv.S(want)}, !ok)
+			c.callStr(e, fmt.Sprintf("char %v", vals), "char", args, []lv.V{lv.S(want)}, !ok, nil)
 			return c.out()
 		}})
 
@@ -518,10 +573,33 @@ func strFamilies(tier string) []*core.Family {
 			e := getEnv()
 			var c collector
 			a := []rt.Value{sv(s)}
-			c.callStr(e, fmt.Sprintf("upper s=%q", s), "upper", a, []lv.V{lv.S(refstr19.Upper(s))}, false)
-			c.callStr(e, fmt.Sprintf("lower s=%q", s), "lower", a, []lv.V{lv.S(refstr19.Lower(s))}, false)
-			c.callStr(e, fmt.Sprintf("reverse s=%q", s), "reverse", a, []lv.V{lv.S(refstr19.Reverse(s))}, false)
-			c.callStr(e, fmt.Sprintf("len s=%q", s), "len", a, []lv.V{lv.I(refstr19.Len(s))}, false)
+			if refstr19.CaseDetermined(s) {
+				// recognise: the right answer except that every byte that is
+				// not valid UTF-8 came back as U+FFFD
+				stray := func(want string) func(string, []rt.Value) string {
+					return func(st string, res []rt.Value) string {
+						var sb strings.Builder
+						for k := 0; k < len(want); k++ {
+							if want[k] >= 0x80 {
+								sb.WriteString("\xef\xbf\xbd")
+							} else {
+								sb.WriteByte(want[k])
+							}
+						}
+						if st == "ok" && len(res) == 1 {
+							if g, isS := res[0].TryString(); isS && g == sb.String() {
+								return "non-utf8-byte-replaced"
+							}
+						}
+						return ""
+					}
+				}
+				up, lo := refstr19.Upper(s), refstr19.Lower(s)
+				c.callStr(e, fmt.Sprintf("upper s=%q", s), "upper", a, []lv.V{lv.S(up)}, false, stray(up))
+				c.callStr(e, fmt.Sprintf("lower s=%q", s), "lower", a, []lv.V{lv.S(lo)}, false, stray(lo))
+			}
+			c.callStr(e, fmt.Sprintf("reverse s=%q", s), "reverse", a, []lv.V{lv.S(refstr19.Reverse(s))}, false, nil)
+			c.callStr(e, fmt.Sprintf("len s=%q", s), "len", a, []lv.V{lv.I(refstr19.Len(s))}, false, nil)
 			return c.out()
 		}})
 	return fams
@@ -570,6 +648,35 @@ func mkTable(e *env, kind int, content reftab.T) realTable {
 	return realTable{arg: res[0], backing: b, proxy: res[0].AsTable()}
 }
 
+// rawEntries lists the live (non-nil value) raw entries of a real table.  It
+// reads the table through the read-only verif hook VerifLayout instead of
+// Table.Next: iteration with next is the subject of another property and is
+// known to loop on some tables holding the key 0, which would hang this check.
+func rawEntries(t *rt.Table) (keys, vals []rt.Value) {
+	var rec []rt.Value
+	lay := t.VerifLayout(func(v rt.Value) string { rec = append(rec, v); return "" })
+	n := 0
+	if strings.HasPrefix(lay, "A[size=") {
+		fmt.Sscanf(lay, "A[size=%d", &n)
+	}
+	if n > len(rec) {
+		panic("rawEntries: cannot parse layout " + lay)
+	}
+	for i := 0; i < n; i++ {
+		if !rec[i].IsNil() {
+			keys = append(keys, rt.IntValue(int64(i+1)))
+			vals = append(vals, rec[i])
+		}
+	}
+	for i := n; i+1 < len(rec); i += 2 {
+		if !rec[i].IsNil() && !rec[i+1].IsNil() {
+			keys = append(keys, rec[i])
+			vals = append(vals, rec[i+1])
+		}
+	}
+	return
+}
+
 // dumpTable renders the raw contents of a real table like reftab.T.Dump
 // (integer keys ascending), followed by the other keys sorted by canon.
 func dumpTable(t *rt.Table) string {
@@ -580,21 +687,15 @@ func dumpTable(t *rt.Table) string {
 	var ints []kv
 	var others []string
 	c := host.NewCanon()
-	k, v, ok := t.Next(rt.NilValue)
-	for ok && !k.IsNil() {
-		if !v.IsNil() {
-			if n, isInt := k.TryInt(); isInt {
-				ints = append(ints, kv{n, c.Value(v)})
-			} else {
-				others = append(others, c.Value(k)+"="+c.Value(v))
-			}
+	ks, vs := rawEntries(t)
+	for i, k := range ks {
+		if n, isInt := k.TryInt(); isInt {
+			ints = append(ints, kv{n, c.Value(vs[i])})
+		} else {
+			others = append(others, c.Value(k)+"="+c.Value(vs[i]))
 		}
-		k, v, ok = t.Next(k)
 	}
-	if !ok {
-		return "<next failed>"
-	}
-	sort.Slice(ints, func(a, b int) bool { return ints[a].k < ints[b].k })
+	sort.SliceStable(ints, func(a, b int) bool { return ints[a].k < ints[b].k })
 	sort.Strings(others)
 	var parts []string
 	for _, x := range ints {
@@ -837,7 +938,7 @@ func tabFamilies(tier string) []*core.Family {
 					key += " dest=" + destName[dest]
 				}
 				r := reftab.Move(ref1, f, en, tp, ref2, 64)
-				st, res, errs := call(e.m, e.tab["move"], args, cpuCtx)
+				st, res, errs := call(e.m, e.tab["move"], args, ctxFor(r))
 				if c.checkRes(key, key, r, st, res, errs, t2.arg) {
 					c.checkContents(key, key+" (source)", t1, ref1)
 					if dest == dOther {
@@ -1054,24 +1155,20 @@ func intSeqStr(xs []int64) string {
 // readSeq reads keys 1..n of the backing table; ok=false if the table does
 // not hold exactly the integer keys 1..n with integer values.
 func readSeq(t *rt.Table, n int) ([]int64, bool) {
-	out := make([]int64, 0, n)
-	cnt := 0
-	k, v, ok := t.Next(rt.NilValue)
-	for ok && !k.IsNil() {
-		if !v.IsNil() {
-			cnt++
-		}
-		k, v, ok = t.Next(k)
-	}
-	if !ok || cnt != n {
+	ks, vs := rawEntries(t)
+	if len(ks) != n {
 		return nil, false
 	}
-	for i := 1; i <= n; i++ {
-		x, isInt := t.Get(rt.IntValue(int64(i))).TryInt()
-		if !isInt {
+	out := make([]int64, n)
+	seen := make([]bool, n)
+	for i, k := range ks {
+		p, isInt := k.TryInt()
+		x, isIntV := vs[i].TryInt()
+		if !isInt || !isIntV || p < 1 || p > int64(n) || seen[p-1] {
 			return nil, false
 		}
-		out = append(out, x)
+		seen[p-1] = true
+		out[p-1] = x
 	}
 	return out, true
 }
@@ -1414,6 +1511,22 @@ func families(tier string) []*core.Family {
 }
 
 func main() {
+	if pp := os.Getenv("C19_PPROF"); pp != "" {
+		debug.SetGCPercent(2000)
+		f, _ := os.Create(pp)
+		pprof.StartCPUProfile(f)
+		fam := families("quick")
+		for _, ff := range fam {
+			if ff.Name == os.Getenv("C19_PPROF_FAM") {
+				for i := uint64(0); i < ff.Size; i += 100 {
+					ff.Run(i)
+				}
+			}
+		}
+		pprof.StopCPUProfile()
+		f.Close()
+		return
+	}
 	core.Main(&core.Check{
 		ID:    "C19",
 		Level: "model_checking",
@@ -1428,5 +1541,8 @@ func main() {
 			"with an inconsistent comparison function table.sort may raise an error or leave any permutation",
 		},
 		Families: families,
+		// the live heap of a worker is tiny; with the default GOGC the collector
+		// would run every few MB of garbage and dominate the run time.
+		Init: func(string) { debug.SetGCPercent(2000) },
 	})
 }
